@@ -134,7 +134,10 @@ PROPS = {
                                                  label="EXHAUSTIVE EXECUTION over a finite domain (all 41 kinds; the enumeration's matches have no wildcard, so a new variant is a build error) on the real code incl. the serde layer: complete for this clause, not a proof: "),
                                    replay_engine("events", "finite_tags_json_roundtrip_exhaustive", "C16.finite_tags.json_roundtrip",
                                                  "all sources, keyboard eof, all file types on a path tag, payload-free completions: Event -> real serde_json text -> Event is the identity",
-                                                 label="EXHAUSTIVE EXECUTION over finite tag payloads on the real code incl. the serde layer: ")],
+                                                 label="EXHAUSTIVE EXECUTION over finite tag payloads on the real code incl. the serde layer: "),
+                                   replay_engine("events", "metadata_and_whole_events_json_roundtrip", "C16.bounded.metadata_and_whole_events_json_roundtrip",
+                                                 "events with every metadata map over 3 keys x {absent, [], [\"\"], one value, two values, awkward characters} x 3 tag sets (648 events) and an array of events: Event -> real serde_json text -> Event is the identity (the Event <-> SerdeEvent conversion is outside Kani's reach: HashMap/BTreeMap)",
+                                                 label="BOUNDED EXECUTION on the real code incl. the serde layer (metadata strings are an infinite domain): ")],
                 level="proof",
                 back_ends=["kani 0.68 / cbmc 6.11 (loop-free harnesses over full-domain symbolic inputs: complete, not bounded)"],
                 assumptions=["the serde-derive layer and serde_json (field names, kebab-case renames, skip_serializing_if, untagged SerdeSignal) are NOT decided: pinned only by the existing snapshot tests",
@@ -242,7 +245,7 @@ PROPS["C03"]["thorough_engines"] = [_hist("ignorefiles", sc, "C03", w) for sc, w
     ("prefix_sibling_negation", "a negation in test/.gitignore does not leak into tests/"),
     ("prefix_sibling_shadow", "a hit in test/.gitignore does not shadow the root file for tests/")]] + [
     replay_engine("ignorefiles", "ignore_rule_bounded", "C03.bounded.verdict_is_the_nearest_file_first_evaluation",
-    "the real IgnoreFilter on 320 ignore-file configurations (origin, test/, test/sub/, tests/, tests/sub/; negations, rooted, dir-only, **/ and a/b patterns) x 3 constructions (new, new with the files listed deepest first, empty + add_file) x ~53 probes (51312 verdicts): match_path, check_dir and IgnoreFilterer::check_event equal an independent nearest-file-first evaluation with the ignore crate's matcher per file")]
+    "the real IgnoreFilter on 320 ignore-file configurations (origin, test/, test/sub/, tests/, tests/sub/; negations, rooted, dir-only, **/ and a/b patterns) x 3 constructions (new, new with the files listed deepest first, empty + add_file) x ~53 probes, plus 196 two-path events per configuration (114032 verdicts): match_path, check_dir and IgnoreFilterer::check_event (single paths, and two paths folded left to right) equal an independent nearest-file-first evaluation with the ignore crate's matcher per file")]
 PROPS["C13"]["thorough_engines"] = [_hist("lib", sc, "C13", w) for sc, w in [
     ("watcher_kind_change_keeps_paths", "after a watcher kind change the configured paths are registered with the new watcher"),
     ("mode_change_after_failed_unwatch", "a path whose mode changed while its unwatch failed stays registered after a later change"),
